@@ -29,7 +29,7 @@ typedef struct {
   const char *pc;
   object_t *cur, *prev, *cg, *rd, *chb, *cint;
   program_t *prog;
-  int caller_type, fio, vio, cgsp, ecd, nobj, isa, in_err, in_meh;
+  int caller_type, fio, vio, cgsp, ecd, nobj, isa, in_err, in_meh, sortd;
 } vm_snap;
 void vm_snap_take (vm_snap *s);
 /* compares b against a; sp of b is expected to be a->sp + sp_delta; one vx_fail per differing field,
@@ -55,7 +55,8 @@ extern char vm_ctx_desc[600];
 #define VM_MAXCVAL 16
 extern char vm_cval[VM_MAXCVAL][300];   /* canonical text of the value of every catch that completed with an error, in order */
 extern int vm_ncval; /* description of the element, used in failure messages */
-extern object_t *vm_fault_object; /* if set before vm_hook_arm(): fault_at counts only dispatches made with this current_object */
+extern object_t *vm_fault_object;
+extern object_t *vm_giver;            /* entry command giver that the hook destructs right before it raises the fault (0 = none) */ /* if set before vm_hook_arm(): fault_at counts only dispatches made with this current_object */
 long vm_insn_in_object (void);
 void vm_hook_arm (long fault_at, int mode, int driver_ec_depth);
 void vm_hook_disarm (void);
